@@ -633,8 +633,13 @@ func (w *c08World) run(e c08Expr, local *c08Local) bool {
 		bp, bv := w.blame(p, v, vals)
 		_, bwhy := c10Conform(bv, bp.Type)
 		if bp.ExpressionType == physical.ExpressionTypeVariable {
-			// cannot happen: atoms are checked against their declared types at start
-			panic(fmt.Sprintf("C08 harness bug: variable %s holds %s outside %s", bp.Variable.Name, c13Str(bv), bp.Type))
+			// Atoms are checked against their declared types at start, so the static type of this variable node has
+			// changed since then: typechecking another expression mutated a type value it shares (types are passed
+			// by value but unions share their alternatives slice).
+			w.r.Violation("C08/variable-static-type-changed-during-typechecking",
+				fmt.Sprintf("%s: variable %s holds %s, which belonged to its declared type when the variables were set up, but the variable node now has static type %s", e.text, bp.Variable.Name, c13Str(bv), bp.Type),
+				c08Case{Part: "expression", Expr: e.text, Vars: w.varDesc(e, idx), Declared: bp.Type.String(), Got: c13Str(bv), Note: "a declared variable type was mutated by typechecking (shared union alternatives)"})
+			return true
 		}
 		_ = why
 		w.count(e.form, "violation", 1, local)
